@@ -196,7 +196,12 @@ fn hostile_raw(h: &mut Hd, rng: &mut Rng, raw: &mut RawVector, steps: usize) {
                 h.call("RawVector::with_len", "wrap", n, || {
                     let x = RawVector::with_len(n, v);
                     let bv = BitVector::from(x.clone());
-                    (x.bit(0), x.count_ones(), bv.zero_iter().next(), bv.one_iter().next_back(), bv.get(n - 1))
+                    // Each on its own: a checked accessor that panics must not keep the unchecked ones from being tried.
+                    let a = guard(|| bv.zero_iter().next()).is_ok();
+                    let b = guard(|| bv.one_iter().next_back()).is_ok();
+                    let c = guard(|| bv.iter().nth(n / 2)).is_ok();
+                    let d = guard(|| (x.bit(0), x.count_ones(), bv.get(n - 1))).is_ok();
+                    (a, b, c, d)
                 })
             },
             _ => h.call("RawVector::size_by_params", cls, a, || RawVector::size_by_params(std::cmp::min(a, usize::MAX - 64))),
